@@ -44,8 +44,9 @@ def script_cases(behaviours, seed0):
         cs, hist = st["cs"], st["hist"]
         hist = [{"k": d["k"], "x": d["x"], "y": d["y"], "p": list(d["p"])} for d in hist]
         sim = cs["sim"]
-        csj = {"sim": sim, "N": cs["N"], "start": cs["start"], "G": list(cs["G"]),
+        csj = {"sim": sim, "N": cs["N"], "start": cs["start"], "gm": list(cs["gm"]),        # gm: the CURRENT assignment
                "sp": _jsonable_graph(cs["sp"]) if cs["sp"].get("n", 0) else {"n": 0}}
+        mops = [{"op": o["op"], "p": list(o["p"])} for o in cs["ops"]]
         base = {"kind": "script", "model": sim, "cs": csj, "hist": hist, "seed": seed0 * 1000003 + k, "via": "rng",
                 "restarts": st["restarts"], "pruned": st["ndead"]}
         has_death = any(d["k"] == "D" for d in hist)
@@ -78,9 +79,12 @@ def script_cases(behaviours, seed0):
             shape = "multi_gene" if max(G) > 1 else "single_gene"
             spec = _species_spec(cs["sp"])
             script = x_c18.bd_script(hist, sim, 0, True)
-            cases.append(dict(base, api="contained_coalescent_tree", shape=shape, ntaxa=sum(G), G=G, sp=spec, pop=1, script=script))
-            cases.append(dict(base, api="constrained_kingman_tree", shape=shape, ntaxa=sum(G), G=G, sp=spec,
-                              strategy="node_attribute", script=script))
+            # argument histories of the model: an earlier call, then the mapping re-applied in place (three routes)
+            ops = [dict(o, how=("dict", "fn", "attr")[k % 3]) if o["op"] == "remap" else o for o in mops]
+            cases.append(dict(base, api="contained_coalescent_tree", shape=shape, ntaxa=sum(G), G=G, sp=spec, pop=1, script=script, ops=ops))
+            if not any(o["op"] == "remap" for o in mops):
+                cases.append(dict(base, api="constrained_kingman_tree", shape=shape, ntaxa=sum(G), G=G, sp=spec,
+                                  strategy="node_attribute", script=script, ops=ops))
     return cases
 
 
@@ -161,7 +165,56 @@ def seed_cases(seed0, nseeds):
             ng = r.choice([nsp, nsp + 2, 2 * nsp])
             ck.update(G=[], num_genes=ng, ntaxa=ng, shape="random_uniform")
         cases.append(ck)
+        cases.extend(_history_cases(r, base, cc, ck, N, birth, death))
     return cases
+
+
+def _history_cases(r, base, cc, ck, N, birth, death):
+    """the same argument objects used by an earlier call and/or modified in place before the call under study"""
+    out = []
+    nsp = len(cc["G"])
+    # 1. contained coalescent: earlier call, then the mapping re-applied / the species tree edited in place
+    ops = [{"op": "call"}] if r.random() < 0.8 else []
+    q = r.random()
+    if nsp >= 2 and q < 0.5:
+        p = list(range(1, nsp + 1))
+        while p == list(range(1, nsp + 1)):
+            r.shuffle(p)
+        ops.append({"op": "remap", "p": p, "how": r.choice(["dict", "fn", "attr"])})
+    elif q < 0.75:
+        ops.append({"op": "edit_len", "f": r.choice([0.5, 2.0, 4.0])})
+    elif q < 0.9:
+        ops.append({"op": "edit_pop", "pops": [r.choice([1, 2, 0.5, 3]) for _ in cc["sp"]["par"]]})
+    if ops:
+        out.append(dict(cc, ops=ops, via="rng"))
+    # 2. constrained Kingman: the population tree used before (gene_nodes left on it), edited lengths, other gene counts
+    ops = [{"op": "call"}]
+    q = r.random()
+    if q < 0.3:
+        ops.append({"op": "edit_len", "f": r.choice([0.5, 2.0])})
+    elif q < 0.5 and ck["strategy"] == "node_attribute":
+        ops.append({"op": "set_genes", "G": [r.choice([1, 2, 3]) for _ in ck["G"]]})
+    elif q < 0.6:
+        ops.append({"op": "call"})
+    ck2 = dict(ck, ops=ops, via="rng")
+    if ops[-1]["op"] == "set_genes":
+        ck2["shape"] = "multi_gene" if max(ops[-1]["G"]) > 1 else "single_gene"
+    out.append(ck2)
+    # 3. a supplied namespace used before, then relabelled / grown
+    api, model = r.choice([("birth_death_tree", "bd"), ("fast_birth_death_tree", "fast"), ("uniform_pure_birth_tree", "upb"),
+                           ("pure_kingman_tree", "king")])
+    n = max(N, 2)
+    c = dict(base, via="rng", api=api, model=model, N=n, ntaxa=n, birth=birth, death=death, shape="ns_given",
+             ns=r.choice([0, n - 1, n]) if model in ("bd", "fast") else n, pop=r.choice([1, 2, 0.5]))
+    ops = [{"op": "call"}]
+    q = r.random()
+    if q < 0.4:
+        ops.append({"op": "relabel", "labels": [[i, "r%d" % i] for i in range(0, n, 2)]})
+    elif q < 0.8:
+        ops.append({"op": "add_taxa", "labels": ["x%d" % i for i in range(r.choice([1, 2]))]})
+    c["ops"] = ops
+    out.append(c)
+    return out
 
 
 # --------------------------------------------------------------------------- run
@@ -180,12 +233,14 @@ def run(ctx):
         ctx.log("%s: %d dumped states, %d finished behaviours" % (cfg, n, len(beh)))
         behaviours.extend(beh)
     behaviours.sort(key=lambda b: core.dumps([b["cs"]["sim"], b["cs"]["N"], b["cs"]["start"], b["cs"]["G"], b["cs"]["sp"].get("par", []),
-                                              b["cs"]["sp"].get("len", []), b["hist"]]))
+                                              b["cs"]["sp"].get("len", []), b["cs"]["ops"], b["hist"]]))
     # non-vacuity: TLC must find the violation under each switch
     ctx.model("MC_TreeSim", "AsShipped_TreeSim.cfg", expect_violation="ExtantTipsEquidistant", count=False, workers=4, heap="1g")
     ctx.model("MC_TreeSim", "StopGT_TreeSim.cfg", expect_violation="ExactlyNExtantLeaves", count=False, workers=4, heap="1g")
     ctx.model("MC_TreeSim", "Leak_TreeSim.cfg", expect_violation="NoGlobalRng", count=False, workers=4, heap="1g")
     ctx.model("MC_TreeSim", "Leak2_TreeSim.cfg", expect_violation="Determinism", count=False, workers=4, heap="1g")
+    ctx.model("MC_TreeSim", "StaleArgs_TreeSim.cfg", expect_violation="CoalescenceRespectsDivergence", count=False, workers=4, heap="1g")
+    ctx.model("MC_TreeSim", "StaleArgs2_TreeSim.cfg", expect_violation="Determinism", count=False, workers=4, heap="1g")
     # 2. spec -> code: every finished behaviour replayed on the real simulators
     scases = script_cases(behaviours, ctx.seed)
     nbeh = len(behaviours)
@@ -201,7 +256,7 @@ def run(ctx):
         del driven
     ctx.rule = ("cases = every finished behaviour (decision sequence) of the dumped TLC model MC_TreeSim (%d behaviours, %d scripted "
                 "real executions x 2 runs over birth_death_tree, fast_birth_death_tree, uniform_pure_birth_tree, pure_kingman_tree, "
-                "contained_coalescent_tree, constrained_kingman_tree) + %d seeds x 8 simulator calls with random.Random(seed), each run twice; "
+                "contained_coalescent_tree, constrained_kingman_tree) + %d seeds x 11 simulator calls (3 of them after an argument history: earlier call on the same objects, mapping re-applied / species tree or namespace edited in place) with random.Random(seed), each run twice; "
                 "distinct_nontrivial = distinct (api, shape, projected result tree) with >= 2 leaves" % (nbeh, len(scases), nseeds))
     ctx.exhaustive = True
     ctx.extra["exhaustive_domain"] = ("every decision sequence of MC_TreeSim that finishes within the bounds of %s (all %d), each replayed on "
@@ -211,6 +266,7 @@ def run(ctx):
     ctx.extra["seeded_executions"] = len(rcases)
     ctx.extra["behaviours_with_restart"] = sum(1 for c in scases if c.get("restarts"))
     ctx.extra["behaviours_with_pruned_extinct_tips"] = sum(1 for c in scases if c.get("pruned"))
+    ctx.extra["executions_after_an_argument_history"] = sum(1 for c in allcases if c.get("ops"))
     ctx.assumptions.append("float edge lengths of seeded runs are judged as fixed-point integers (10^7 units per 1.0 unless the tree is "
                            "longer than 200): equidistance / divergence order within dendropy's DEFAULT_ULTRAMETRICITY_PRECISION plus one "
                            "unit per node; the statistical law of the trees is not judged (support only)")
